@@ -486,9 +486,226 @@ def rule_dummy_flagged(chk, prog):
                               "entered in the other dimension keep the copy's point and end at the shape centre")
 
 
+_ZL_TREES = [
+    ("junction moved onto the terminal of one of its connectors",
+     {"nodes": {"J": ("J", (0, 0)), "a": ("T", (0, 0)), "b": ("T", (5, 0)), "c": ("T", (0, 5))}, "edges": [("J", "a"), ("J", "b"), ("J", "c")]},
+     [["J-a"], ["J-b"], ["J-c"]]),
+    ("zero-length edge junction - bend inside a longer connector",
+     {"nodes": {"J": ("J", (0, 0)), "n": ("N", (0, 0)), "a": ("T", (4, 0)), "b": ("T", (5, 5)), "c": ("T", (0, 5))},
+      "edges": [("J", "n"), ("n", "a"), ("J", "b"), ("J", "c")]}, [["J-n", "n-a"], ["J-b"], ["J-c"]]),
+    ("zero-length edge between two bends",
+     {"nodes": {"J": ("J", (0, 0)), "n": ("N", (3, 0)), "m": ("N", (3, 0)), "a": ("T", (3, 4)), "b": ("T", (5, 5)), "c": ("T", (0, 5))},
+      "edges": [("J", "n"), ("n", "m"), ("m", "a"), ("J", "b"), ("J", "c")]}, [["J-n", "n-m", "m-a"], ["J-b"], ["J-c"]]),
+    ("bend moved onto its terminal",
+     {"nodes": {"J": ("J", (0, 0)), "n": ("N", (3, 0)), "a": ("T", (3, 0)), "b": ("T", (5, 5)), "c": ("T", (0, 5))},
+      "edges": [("J", "n"), ("n", "a"), ("J", "b"), ("J", "c")]}, [["J-n", "n-a"], ["J-b"], ["J-c"]]),
+    ("junction, bend and terminal all at one point",
+     {"nodes": {"J": ("J", (0, 0)), "n": ("N", (0, 0)), "a": ("T", (0, 0)), "b": ("T", (5, 5)), "c": ("T", (0, 5))},
+      "edges": [("J", "n"), ("n", "a"), ("J", "b"), ("J", "c")]}, [["J-n", "n-a"], ["J-b"], ["J-c"]]),
+    ("two junctions at one point",
+     {"nodes": {"J": ("J", (0, 0)), "K": ("J", (0, 0)), "a": ("T", (4, 0)), "b": ("T", (5, 5)), "c": ("T", (0, 5)), "d": ("T", (-4, 0))},
+      "edges": [("J", "K"), ("K", "a"), ("K", "d"), ("J", "b"), ("J", "c")]}, [["J-K"], ["K-a"], ["K-d"], ["J-b"], ["J-c"]]),
+]
+
+
+def _improver_scene(prog, spec, conn_edges, major):
+    from ..microai.interp import MapVal, SetVal
+    nodes, edges = build(prog, spec)
+    conns = []
+    for ci, lst in enumerate(conn_edges):
+        c = Obj("Avoid::ConnRef", {"_id": ci})
+        conns.append(c)
+        for e in edges:
+            if "-".join(e.f["_name"]) in lst:
+                e.f["conn"] = c
+    for e in edges:
+        e.f["hasFixedRoute"] = False
+        if e.f["conn"] is None:
+            raise AnalysisBroken("improver scenario: edge %s without connector" % (e.f["_name"],))
+    imp = default_obj(prog, "Avoid::HyperedgeImprover", {"m_can_make_major_changes": major})
+    for fld, t in (("m_deleted_connectors", "Avoid::ConnRef *"), ("m_deleted_junctions", "Avoid::JunctionRef *"), ("m_new_connectors", "Avoid::ConnRef *"),
+                   ("m_new_junctions", "Avoid::JunctionRef *")):
+        imp.f[fld] = Vec([], t)
+    imp.f["m_hyperedge_tree_junctions"] = MapVal({n.f["junction"]: n for n in nodes.values() if n.f.get("junction") is not None})
+    roots = SetVal()
+    roots.items.add(nodes["J"].f["junction"])
+    imp.f["m_hyperedge_tree_roots"] = roots
+    imp.f["m_router"] = default_obj(prog, "Avoid::Router", {})
+    return nodes, edges, conns, imp
+
+
+def _tree_state(root):
+    """(sorted positions of the leaves, connectors owning an edge) of the tree reachable from root."""
+    out, seen, stack, live = [], set(), [root], []
+    while stack:
+        n = stack.pop()
+        if id(n) in seen:
+            continue
+        seen.add(id(n))
+        es = n.f["edges"].items
+        if len(es) == 1:
+            out.append((n.f["point"].f["x"], n.f["point"].f["y"]))
+        for e in es:
+            live.append(e.f["conn"])
+            for end in (e.f["ends"].f["first"], e.f["ends"].f["second"]):
+                if end is not None:
+                    stack.append(end)
+    return sorted(out), live
+
+
+def _improver_interp(prog):
+    it = Interp(prog, Oracle([]), max_steps=400000)
+    it.vhooks["Avoid::JunctionRef::positionFixed"] = lambda it_, recv, args: False
+    it.vhooks["Avoid::ConnRef::hasFixedRoute"] = lambda it_, recv, args: False
+    it.vhooks["Avoid::Router::removeObjectFromQueuedActions"] = lambda it_, recv, args: None
+    it.vhooks["Avoid::ConnRef::makeActive"] = lambda it_, recv, args: None
+    it.vhooks["Avoid::JunctionRef::makeActive"] = lambda it_, recv, args: None
+    it.vhooks["Avoid::Obstacle::makeActive"] = lambda it_, recv, args: None
+    it.vhooks["Avoid::ConnRef::updateEndPoint"] = lambda it_, recv, args: None
+    it.vhooks["Avoid::ConnRef::id"] = lambda it_, recv, args: recv.f.get("_id", 99)
+    it.vhooks["Avoid::JunctionRef::id"] = lambda it_, recv, args: 77
+    it.ctor_hooks = {"Avoid::ConnRef": lambda it_, o, args, env: o.f.__setitem__("_id", 100 + len(o.f)),
+                     "Avoid::JunctionRef": lambda it_, o, args, env: o.f.__setitem__("_new", True),
+                     "Avoid::ConnEnd": lambda it_, o, args, env: None}
+    return it
+
+
+def _conservation(conns, conn_edges, imp, before_leaves, root):
+    after_leaves, live = _tree_state(root)
+    for c in conns:
+        if not any(x is c for x in live) and not any(x is c for x in imp.f["m_deleted_connectors"].items):
+            return ("the connector of edge(s) %s owns no edge of the tree any more and is not recorded as deleted: its route and its junction end "
+                    "are never written back again" % conn_edges[c.f["_id"]])
+    if after_leaves != before_leaves:
+        return "the tree's terminals were at %s, afterwards at %s" % ([(str(a), str(b)) for a, b in before_leaves], [(str(a), str(b)) for a, b in after_leaves])
+    return None
+
+
+_MJ_TREES = [
+    ("a longer collinear edge shares its first stretch with the edge to a terminal",
+     {"nodes": {"J": ("J", (0, 0)), "a": ("T", (5, 0)), "n": ("N", (9, 0)), "d": ("T", (9, 4)), "b": ("T", (0, 5))},
+      "edges": [("J", "a"), ("J", "n"), ("n", "d"), ("J", "b")]}, [["J-a"], ["J-n", "n-d"], ["J-b"]]),
+    ("a bend of one connector lies on the terminal of another",
+     {"nodes": {"J": ("J", (0, 0)), "a": ("T", (5, 0)), "n": ("N", (5, 0)), "d": ("T", (5, 4)), "b": ("T", (0, 5))},
+      "edges": [("J", "a"), ("J", "n"), ("n", "d"), ("J", "b")]}, [["J-a"], ["J-n", "n-d"], ["J-b"]]),
+    ("the same, edge to the bend listed first",
+     {"nodes": {"J": ("J", (0, 0)), "n": ("N", (5, 0)), "d": ("T", (5, 4)), "a": ("T", (5, 0)), "b": ("T", (0, 5))},
+      "edges": [("J", "n"), ("n", "d"), ("J", "a"), ("J", "b")]}, [["J-a"], ["J-n", "n-d"], ["J-b"]]),
+    ("two connectors leave the junction along a common stretch (the move the function exists for)",
+     {"nodes": {"J": ("J", (0, 0)), "n": ("N", (5, 0)), "x": ("T", (5, 4)), "m": ("N", (5, 0)), "y": ("T", (5, -4)), "b": ("T", (0, 5))},
+      "edges": [("J", "n"), ("n", "x"), ("J", "m"), ("m", "y"), ("J", "b")]}, [["J-n", "n-x"], ["J-m", "m-y"], ["J-b"]]),
+    ("common stretch and two other connectors (junction is split under major changes)",
+     {"nodes": {"J": ("J", (0, 0)), "n": ("N", (5, 0)), "x": ("T", (5, 4)), "m": ("N", (5, 0)), "y": ("T", (5, -4)), "b": ("T", (0, 5)), "c": ("T", (0, -5))},
+      "edges": [("J", "n"), ("n", "x"), ("J", "m"), ("m", "y"), ("J", "b"), ("J", "c")]}, [["J-n", "n-x"], ["J-m", "m-y"], ["J-b"], ["J-c"]]),
+]
+
+
+def rule_zero_length(chk, prog):
+    """The improver's tree surgery never erases a connector or a terminal from the tree silently."""
+    r = chk.rule("ZERO-LENGTH-EDGES", "HyperedgeImprover::removeZeroLengthEdges interpreted on hand-made trees with zero-length edges (junction on "
+                 "a terminal, junction on a bend, bend on bend, bend on its terminal, all three at one point, two junctions at one point), with "
+                 "and without major changes: afterwards every connector still owns at least one edge of the tree or is recorded in "
+                 "m_deleted_connectors, and the terminal positions (leaves) of the tree are the same -- a connector whose last edge is "
+                 "collapsed is never written back again (stale route, end left on a deleted junction)", floor=8)
+    cands = [f for f in prog.fns("Avoid::HyperedgeImprover::removeZeroLengthEdges") if f.params and "HyperedgeTreeNode" in f.params[0]["t"]]
+    if len(cands) != 1:
+        raise AnalysisBroken("HyperedgeImprover::removeZeroLengthEdges(HyperedgeTreeNode *, ...) not found")
+    fn = cands[0]
+    for name, spec, conn_edges in _ZL_TREES:
+        for major in (False, True):
+            nodes, edges, conns, imp = _improver_scene(prog, spec, conn_edges, major)
+            before_leaves, _ = _tree_state(nodes["J"])
+            it = _improver_interp(prog)
+            inst = "%s%s" % (name, ", major changes allowed" if major else "")
+            r.count()
+            try:
+                it.call(fn, imp, None, None, arg_values=[nodes["J"], None])
+            except Unsupported as e:
+                raise AnalysisBroken("removeZeroLengthEdges outside the interpreter subset (%s): %s" % (inst, e))
+            except AssertFail as e:
+                r.bad(inst, fn.where(), "assertion fails: %s" % e)
+                continue
+            bad = _conservation(conns, conn_edges, imp, before_leaves, nodes["J"])
+            (r.bad if bad else r.ok)(inst, fn.where(), bad or "")
+    r2 = chk.rule("JUNCTION-MOVES", "HyperedgeImprover::moveJunctionAlongCommonEdge interpreted (repeatedly, as its caller does) on hand-made trees "
+                  "where the far node of a candidate common edge is the TERMINAL of a connector, and on the genuine common-stretch cases, with and "
+                  "without major changes: the same conservation of connectors and terminal positions; a junction is never moved onto a terminal", floor=8)
+    fm = prog.fn("Avoid::HyperedgeImprover::moveJunctionAlongCommonEdge")
+    for name, spec, conn_edges in _MJ_TREES:
+        for major in (False, True):
+            nodes, edges, conns, imp = _improver_scene(prog, spec, conn_edges, major)
+            before_leaves, _ = _tree_state(nodes["J"])
+            it = _improver_interp(prog)
+            inst = "%s%s" % (name, ", major changes allowed" if major else "")
+            r2.count()
+            node = nodes["J"]
+            root = nodes["b"]          # a terminal that no scenario touches: the tree is walked from there afterwards
+            moved = 0
+            try:
+                for _ in range(6):
+                    node = it.call(fm, imp, None, None, arg_values=[node, Box(False)])
+                    if node is None:
+                        break
+                    moved += 1
+            except Unsupported as e:
+                raise AnalysisBroken("moveJunctionAlongCommonEdge outside the interpreter subset (%s): %s" % (inst, e))
+            except AssertFail as e:
+                r2.bad(inst, fm.where(), "assertion fails: %s" % e)
+                continue
+            bad = _conservation(conns, conn_edges, imp, before_leaves, root)
+            if bad is None and "common stretch" in name and not moved and (major or "two other connectors" not in name):
+                bad = "the junction is not moved along the common stretch at all (the improvement is gone)"
+            (r2.bad if bad else r2.ok)(inst, fm.where(), bad or ("%d move(s)" % moved))
+
+
+def rule_shift_terminal(chk, prog):
+    r = chk.rule("SHIFT-NOT-ONTO-TERMINAL", "HyperedgeShiftSegment::setBalanceCount (+ adjustPosition when the balance is non-zero) interpreted on a "
+                 "segment through a junction whose own connector's terminal lies straight ahead, in both dimensions and both directions: the "
+                 "junction is never shifted exactly onto that terminal (the connector would shrink to a zero-length edge); when the next stop "
+                 "is short of the terminal the segment still moves there (the improvement is kept)", floor=8)
+    cls = "Avoid::HyperedgeShiftSegment"
+    fb, fa = prog.fn(cls + "::setBalanceCount"), prog.fn(cls + "::adjustPosition")
+    for dim in (0, 1):
+        for sign in (-1, 1):
+            for terminal_first in (True, False):
+                def xy(along, across):            # `across` is the coordinate the segment is shifted in (dimension), `along` the other one
+                    return (across, along) if dim == 0 else (along, across)
+                t_at, stop_at = (5, 8) if terminal_first else (9, 5)
+                spec = {"nodes": {"J": ("J", xy(0, 0)), "a": ("T", xy(0, sign * t_at)), "m": ("N", xy(10, 0)), "p": ("T", xy(10, sign * stop_at)),
+                                  "q": ("T", xy(10, -sign * 8)), "z": ("T", xy(-6, 0))},
+                        "edges": [("J", "a"), ("J", "m"), ("m", "p"), ("m", "q"), ("J", "z")]}
+                # (z makes J a real junction with three connectors; m - p / m - q pull the segment towards `sign`)
+                nodes, edges = build(prog, spec)
+                seg = default_obj(prog, cls, {"dimension": dim, "minSpaceLimit": Fraction(-100), "maxSpaceLimit": Fraction(100), "isImmovable": False,
+                                              "m_balance_count_set": False, "m_balance_count": 0, "m_at_limit": False})
+                seg.f["nodes"] = Vec([nodes["J"], nodes["m"]], "Avoid::HyperedgeTreeNode *")
+                it = Interp(prog, Oracle([]))
+                inst = "shift in %s towards %s, terminal %s" % ("xy"[dim], "lower" if sign < 0 else "higher", "is the next stop" if terminal_first else "lies beyond the next stop")
+                r.count()
+                try:
+                    it.call(fb, seg, None, None, arg_values=[])
+                    if seg.f["m_balance_count"] != 0:
+                        it.call(fa, seg, None, None, arg_values=[])
+                except Unsupported as e:
+                    raise AnalysisBroken("HyperedgeShiftSegment outside the interpreter subset (%s): %s" % (inst, e))
+                except AssertFail as e:
+                    r.bad(inst, fb.where(), "assertion fails: %s" % e)
+                    continue
+                pj = (nodes["J"].f["point"].f["x"], nodes["J"].f["point"].f["y"])
+                pa = (nodes["a"].f["point"].f["x"], nodes["a"].f["point"].f["y"])
+                bad = None
+                if pj == pa:
+                    bad = "the junction is shifted to (%s,%s), exactly onto the terminal of one of its own connectors" % pj
+                elif not terminal_first and pj[dim] != sign * stop_at:
+                    bad = "the segment should move to %d (next stop, short of the terminal), the junction is at %s" % (sign * stop_at, pj[dim])
+                (r.bad if bad else r.ok)(inst, fb.where(), bad or "")
+
+
 def run(chk):
     prog = chk.load()
     rule_writeback(chk, prog, chk.tier)
     rule_dummy_flagged(chk, prog)
+    rule_zero_length(chk, prog)
+    rule_shift_terminal(chk, prog)
     rule_reroute_lists(chk, prog)
     rule_object_lists(chk, prog)
